@@ -125,6 +125,12 @@ func (s *Server) serve(ctx context.Context, listener net.Listener, handler Modbu
 	}
 	// listener must be set (under lock, Shutdown and Addr read it) before OnServeFunc tells that server is running
 	s.mu.Lock()
+	if s.isShutdown.Load() {
+		// Shutdown was called before (or while) server was starting
+		s.mu.Unlock()
+		_ = listener.Close()
+		return ErrServerClosed
+	}
 	s.listener = listener
 	s.mu.Unlock()
 	if s.OnServeFunc != nil {
@@ -339,7 +345,10 @@ func (s *Server) Shutdown(ctx context.Context) error {
 	s.isShutdown.Store(true)
 	verifPoint("sd.start", nil, 0)
 
-	err := s.listener.Close()
+	var err error
+	if s.listener != nil { // is nil when Shutdown is called before Serve has started
+		err = s.listener.Close()
+	}
 	verifPoint("sd.lisclosed", nil, 0)
 
 	timer := time.NewTimer(50 * time.Millisecond)
